@@ -15,10 +15,18 @@ CHECKS = {
         text="Action.tla models the agent->proxy hand-off as a stuttering step; TLC enumerates behaviours with the hand-off at different script positions; the harness serialises and restores the real Action there (rich shapes: unit ids, target hashes, text and HTML body filters) while a second copy never leaves memory; TLC checks decode success, equal re-serialisation (hash), and equality of every later observation (status, headers, body output, log decision, applied ids) with the in-memory copy and with the specification. Request JSON round trip is checked in the router traces.",
         note="Serialisations compared through a 64-bit FNV hash; JSON field fidelity is observed through behaviour and re-serialisation only. Bounded to the generated action shapes.",
         ref="DESIGN.md section 6, C06"),
+    "C08": dict(
+        text="TLC explores every history (<=3 ops quick, <=4 thorough) of insert / remove / retain / cache over pools of 8-16 token patterns (escaped literals, marker groups incl. nested groups, escaped parentheses, parentheses inside character classes, empty-matching groups), case-sensitive and case-insensitive, checking on the code-shaped tree that find equals the linear scan for every probe string, len, get, replace-on-same-key, the prefix invariant and remove's return value; PrefixChar.tla shows by enumeration (all pairs of token sequences) that the character-level prefix function cuts exactly at the longest common token prefix. One history per distinct reachable tree is replayed on a real RegexTreeMap; after every operation len/find/get and the structural snapshot (hook H1) are validated by TLC against the linear scan (verdict) and the model's exact tree shape (drift); all token-sequence pairs are replayed into the real prefix function (hook H2).",
+        note="Bounded to the token alphabet and pools of MC_RadixTree.tla; ids unique across patterns; the model's regex semantics is re-checked against the regex crate on the probe universe at each run (mismatch = tool error). Two genuine defects found by TLC in the model and confirmed on the code were repaired (fix: commits, see known_findings.json).",
+        ref="DESIGN.md section 6, C08"),
     "C11": dict(
         text="TLC enumerates rule sets of <=3 (thorough: 4) rules with every rank-tie pattern and conflicting effects; the specification's order is (rank desc, id desc). For each set the harness folds every permutation of the real match vector and matches on routers built in every insertion order; TLC checks that all serialised actions are identical and that the recorded filter order equals the specification's.",
         note="Sampling disabled as the property states. Bounded to <=4 matched rules; serialisations compared by hash.",
         ref="DESIGN.md section 6, C11"),
+    "C12": dict(
+        text="RadixTree.tla has cache(limit, level) as an action that only sets compiled flags under the level-by-level budget algorithm; TLC interleaves it with all updates (limits 0-3, levels 0-2 and none) and checks CacheTransparent/CacheBudget. On the real code a twin tree that is never cached receives the same history; TLC compares find / len / remove results of the two after every operation (real vs real) and, as drift, compiled flags and the returned budget with the model.",
+        note="Tree level (RegexTreeMap) in this check; router-level cache (Router::cache, Route::compile, captures, traces) is covered by the router traces. Bounded as C08.",
+        ref="DESIGN.md section 6, C12"),
     "C13": dict(
         text="TLC checks HeaderMachine.tla exhaustively (code-shaped operations imply the declarative ones for every header list <= MaxH and filter sequence <= MaxF over 3 names incl. a case variant, empty values, 5 operations + unknown); every enumerated behaviour is replayed into the real FilterHeaderAction and Action::filter_headers and the recorded trace is validated by TLC against the declarative layer.",
         note="Bounded: names {x-a, X-A, x-b}, lists <= 2 (quick) / <= 3 (thorough), sequences <= 2 / <= 3. Trusted: TLC, the ndjson recorder, the Lower table for the three names.",
